@@ -497,7 +497,7 @@ fn one_op<B: BmCtl>(w: &mut GmWorld<B>, tracked: bool, step: usize) -> Step {
     // descriptor and scripted-stream transfers (15..) run in the untracked worlds too: their
     // contents and stray-access oracles belong to C03
     let _ = tracked;
-    let kind = cx().a(20);
+    let kind = cx().a(21);
     let ga = GuestAddress(addr);
     let mut st = Step { desc: String::new(), kind: "", got: GO::Unit, exp: None, wrote: vec![], failed_fd: vec![], effect: Effect::NoWrite, free_result: false };
     let _ = step;
@@ -1006,6 +1006,128 @@ fn one_op<B: BmCtl>(w: &mut GmWorld<B>, tracked: bool, step: usize) -> Step {
                     GO::Count(count.min(room))
                 });
             }
+        }
+        20 => {
+            // try_access driven directly: the caller's callback is the endpoint of the transfer and may
+            // take less than it is offered, stop (Ok(0)), fail, or claim more than the request holds
+            let count = gen_nlen(room);
+            let writing = cx().a(2) == 0;
+            let nscript = cx().a(5) as usize;
+            // 0 full, 1 short, 2 stop, 3 error, 4 over-claim (only when the chunk is the last of the request)
+            let script: Vec<(u8, usize)> = (0..nscript)
+                .map(|_| {
+                    let b = match cx().a(9) {
+                        0 | 1 | 2 => 1,
+                        3 => 2,
+                        4 => 3,
+                        5 => 4,
+                        _ => 0,
+                    };
+                    (b, 1 + cx().a(48) as usize)
+                })
+                .collect();
+            let data = compl(w, addr, count);
+            let mut rdata = vec![0xAAu8; count];
+            // (offset, offered length, region base, offset in region, bytes taken)
+            let mut calls: Vec<(usize, usize, u64, u64, usize)> = Vec::new();
+            st.kind = if writing { "try_access(writing callback)" } else { "try_access(reading callback)" };
+            st.desc = format!("try_access({}, {:#x}, callback {:?})", count, addr, script);
+            let r = catch(|| {
+                w.gm.try_access(count, ga, |offset, len, start, region| {
+                    let beh = script.get(calls.len()).copied().unwrap_or((0, 0));
+                    let want = match beh.0 {
+                        1 => beh.1.min(len),
+                        2 | 3 => 0,
+                        _ => len,
+                    };
+                    let mut taken = 0;
+                    if want > 0 {
+                        let end = offset.checked_add(want).filter(|&e| e <= count);
+                        match end {
+                            Some(end) if writing => taken = region.write(&data[offset..end], start)?,
+                            Some(end) => taken = region.read(&mut rdata[offset..end], start)?,
+                            None => {}
+                        }
+                    }
+                    calls.push((offset, len, region.start_addr().0, start.0, taken));
+                    match beh.0 {
+                        3 => Err(GErr::HostAddressNotAvailable),
+                        2 => Ok(0),
+                        4 if offset.checked_add(len) == Some(count) => Ok(taken + 1),
+                        _ => Ok(taken),
+                    }
+                })
+            });
+            st.got = go_n(r);
+            // what the flat model says the callback is offered, chunk by chunk
+            let mut exp_calls: Vec<(usize, usize, u64, u64, usize)> = Vec::new();
+            let (mut total, mut cur) = (0usize, addr);
+            let mut res: Option<GO> = None;
+            while let Some((i, off)) = w.find(cur) {
+                let offered = (w.regs[i].size - off).min(count - total);
+                let beh = script.get(exp_calls.len()).copied().unwrap_or((0, 0));
+                let want = match beh.0 {
+                    1 => beh.1.min(offered),
+                    2 | 3 => 0,
+                    _ => offered,
+                };
+                exp_calls.push((total, offered, w.regs[i].base, off as u64, want));
+                if beh.0 == 3 {
+                    res = Some(go_err(GErr::HostAddressNotAvailable));
+                    break;
+                }
+                if beh.0 == 2 {
+                    res = Some(GO::Count(total));
+                    break;
+                }
+                let ret = if beh.0 == 4 && total + offered == count { want + 1 } else { want };
+                total += ret;
+                if total > count {
+                    res = Some(go_err(GErr::CallbackOutOfRange));
+                    break;
+                }
+                if total == count {
+                    res = Some(GO::Count(count));
+                    break;
+                }
+                match cur.checked_add(ret as u64) {
+                    Some(c) => cur = c,
+                    None => break,
+                }
+            }
+            let res = res.unwrap_or(if total == 0 { GO::Iga } else { GO::Count(total) });
+            if exp_calls.len() > 1 {
+                cx().count("probe.try_access_callback_called_more_than_once");
+            }
+            if exp_calls.iter().any(|c| c.4 < c.1) && exp_calls.len() > 1 {
+                cx().count("probe.try_access_callback_took_less_than_offered");
+            }
+            let mut any = false;
+            for c in &exp_calls {
+                if c.4 > 0 && writing {
+                    w.model_write(addr + c.0 as u64, &data[c.0..c.0 + c.4]);
+                    st.wrote.push((addr + c.0 as u64, c.4));
+                    any = true;
+                }
+            }
+            st.effect = if !any {
+                Effect::NoWrite
+            } else if matches!(res, GO::Count(_)) {
+                Effect::Write
+            } else {
+                Effect::PartialFail
+            };
+            if calls != exp_calls {
+                let k = calls.iter().zip(exp_calls.iter()).position(|(a, b)| a != b).unwrap_or(calls.len().min(exp_calls.len()));
+                st.got = GO::Other(format!("callback invocation {} was (offset, length, region base, region offset, taken) = {:?}; the flat model says {:?}", k, calls.get(k), exp_calls.get(k)));
+            } else if !writing {
+                for c in &exp_calls {
+                    if c.4 > 0 && rdata[c.0..c.0 + c.4] != w.model_read(addr + c.0 as u64, c.4)[..] {
+                        st.got = GO::Other("the callback read wrong bytes from the region it was offered".into());
+                    }
+                }
+            }
+            st.exp = Some(res);
         }
         _ => {
             // scripted reader that may fail part-way
